@@ -7,6 +7,10 @@
 # told (didOpen) about the documents outside the workspace that are open.
 # The OCaml side prints what the Coq model (with the toy analysis of Proofs/EventsToy.v) predicts for both, what the
 # property demands, and the finding classes of the history.
+# A diagnostic is printed as <type>@<line>#<tag>: the tag is a hash of start column, end line, end column and message
+# text, i.e. the comparison covers everything the client is shown. The generators therefore produce texts whose diagnostics
+# differ in the message only (g1 / g2 at the same spot; a call of gf whose definition, in another file, changes its
+# parameter count; a require of another missing module), and histories that switch between them.
 import vlib
 from vlib import Leg
 
@@ -28,10 +32,14 @@ def rand_content(rng, rich=True):
             out.append("c")
         elif k < 0.48:
             out.append("s")
-        elif k < 0.62:
+        elif k < 0.58:
             out.append("d" + rng.choice("12"))
-        elif k < 0.80:
+        elif k < 0.72:
             out.append("u" + rng.choice("12"))
+        elif k < 0.79:
+            out.append("f" + rng.choice("12"))
+        elif k < 0.86:
+            out.append("g")
         else:
             out.append("r" + rng.choice(INSIDE if rng.random() < 0.9 else OUTSIDE))
     return "".join(out)
@@ -42,7 +50,7 @@ def stmts(code):
         return []
     out, i = [], 0
     while i < len(code):
-        if code[i] in "lcs":
+        if code[i] in "lcsg":
             out.append(code[i]); i += 1
         else:
             out.append(code[i:i + 2]); i += 2
@@ -57,9 +65,11 @@ def edit_content(rng, code):
     """a small edit of an existing text: what typing does (break it, fix it, add or drop a line)"""
     l = stmts(code)
     r = rng.random()
-    swap = {"d1": "d2", "d2": "d1", "u1": "u2", "u2": "u1", "l": "c"}
-    if r < 0.12 and any(x in swap for x in l):
-        # same-length change (the unchanged-content shortcut must still see it)
+    swap = {"d1": "d2", "d2": "d1", "u1": "u2", "u2": "u1", "l": "c", "f1": "f2", "f2": "f1",
+            "ra": "rb", "rb": "rc", "rc": "rd", "rd": "ra"}
+    if r < 0.2 and any(x in swap for x in l):
+        # same-length change (the unchanged-content shortcut must still see it); for u / f / r the diagnostics it causes -
+        # in this file or in the callers of gf - keep type and position and change their message text only
         i = rng.choice([k for k, x in enumerate(l) if x in swap])
         l[i] = swap[l[i]]
         return unstmts(l)
@@ -198,7 +208,90 @@ SEEDS = [
     "A a=u1u2,p=d1s,q=d2 op;oq;cp=d1;xq;sp;oa;ca=u2u1;xp;sa",
     "A a=rprq,b=u1,p=d1,q=l oq;op;wMb=u1u2;xq;wDa;wCa=rq;xp",
     "A p=su1 op;cp=u1;xp;op;cp=ss;sp;xp",
+    # same kind, same place, other message text: the file must be re-published (seeded change C08-4)
+    "A a=u1 wMa=u2",
+    "A a=g,b=f2 wMb=f1",
+    "A a=g,b=f2 ob;cb=f1;sb",
+    "A a=g,b=cf2 wCc=f1;wDc",
+    "A a=rb wMa=rc",
+    "A a=cg,b=lf1,c=cf2 wDb;wCb=f2;oc;cc=f1;sc;xc",
+    "A a=u1d1,b=g oa;ca=u1;sa;ca=u2;sa;wCc=f2;wMc=f1",
+    "A a=gf1,b=f2,p=cf1 op;cp=f2;sp;xp;wMb=cf1",
 ]
+
+
+def gen_tagonly(rng, tier):
+    """histories built around a switch between two texts whose diagnostics differ in the message only, made by a watched
+    Changed event, by didChange + didSave (of the file itself / of the file the message depends on), by create / delete"""
+    n = {"quick": 450, "thorough": 7000, "search": 300}[tier]
+    pairs = [("u1", "u2"), ("u2", "u1"), ("ra", "rb"), ("rd", "rc")]
+    out = []
+    for k in range(n):
+        files = list(INSIDE)
+        rng.shuffle(files)
+        f, g, h = files[0], files[1], files[2]
+        pad = lambda: "".join(rng.choice(["", "", "c", "l", "c"]) for _ in range(2))
+        disk, evs = {}, []
+        kind = rng.random()
+        if kind < 0.35:
+            # the message belongs to the file that is rewritten
+            x, y = rng.choice(pairs)
+            p1 = pad()
+            disk[f] = (p1 + x + pad()) or x
+            new = disk[f].replace(x, y)
+            if rng.random() < 0.25:
+                # type-3 wording ("crcular reference or load order error, var not define") against type-2 wording at the
+                # same place: the definition further down in the same file goes away / comes / moves to another file
+                k = rng.choice("12")
+                with_def, without = p1 + "u" + k + pad() + "d" + k, p1 + "u" + k + "c"
+                disk[f], new = (with_def, without) if rng.random() < 0.5 else (without, with_def)
+                if rng.random() < 0.4:
+                    disk[g] = "d" + k
+            if g not in disk and rng.random() < 0.5:
+                disk[g] = rand_content(rng)
+            how = rng.random()
+            if how < 0.5:
+                evs.append("wM%s=%s" % (f, new))
+            elif how < 0.75:
+                evs += ["o" + f, "c%s=%s" % (f, new), "s" + f] + (["x" + f] if rng.random() < 0.5 else [])
+            else:
+                evs += ["wD" + f, "wC%s=%s" % (f, new)]
+        else:
+            # the message of f (a call of gf) depends on a definition in g, perhaps competing with one in h
+            disk[f] = pad() + "g" + (pad() if rng.random() < 0.5 else "")
+            n1 = rng.choice("12")
+            n2 = "1" if n1 == "2" else "2"
+            pg = rng.choice(["", "c", "l", "cc"])
+            disk[g] = pg + "f" + n1
+            how = rng.random()
+            if how < 0.3:
+                evs.append("wM%s=%s" % (g, pg + "f" + n2))
+            elif how < 0.55:
+                evs += ["o" + g, "c%s=%s" % (g, pg + "f" + n2), "s" + g] + (["x" + g] if rng.random() < 0.5 else [])
+            elif how < 0.8:
+                # a competing definition on an earlier (or the same) line of another file is created and deleted again
+                ph = rng.choice(["", "", "c"]) if pg else ""
+                evs += ["wC%s=%s" % (h, ph + "f" + n2), "wD" + h]
+            else:
+                disk[h] = rng.choice(["", "c"]) + "f" + n2
+                evs += ["wD" + g, "wC%s=%s" % (g, "f" + rng.choice("12"))]
+        # decorate: unrelated events afterwards
+        ed = Ed(disk)
+        tail = []
+        for _ in range(rng.choice([0, 1, 2, 3])):
+            t = rng.choice(INSIDE)
+            r = rng.random()
+            if r < 0.4:
+                c = edit_content(rng, ed.disk[t]) if t in ed.disk else rand_content(rng)
+                tail.append(("wM" if t in ed.disk else "wC") + "%s=%s" % (t, c)); ed.disk[t] = c
+            elif r < 0.6 and t in ed.disk:
+                tail.append("wD" + t); del ed.disk[t]
+            else:
+                tail += ["o" + t, "c%s=%s" % (t, edit_content(rng, ed.disk.get(t, "c"))), "s" + t, "x" + t]
+        init = ",".join("%s=%s" % (a, c) for a, c in sorted(disk.items()))
+        out.append(case_of("A", init, evs + (tail if rng.random() < 0.6 else [])))
+    return out
+
 
 
 def gen_conformant(rng, tier):
@@ -262,11 +355,14 @@ LEGS = [
     Leg("c08.history", gen_conformant, shrink=shrink, nontrivial=nontrivial, per_case_s=5.0),
     Leg("c08.raw", gen_raw, shrink=shrink, nontrivial=nontrivial, per_case_s=5.0),
     Leg("c08.batch", gen_batch, shrink=shrink, nontrivial=nontrivial, per_case_s=5.0),
+    Leg("c08.tagonly", gen_tagonly, shrink=shrink, nontrivial=lambda c: True, per_case_s=5.0),
 ]
 
 TRUSTED = vlib.TRUSTED_COMMON + [
     "oracles (fields of the record `analysis`; theorems hold for every instance): per-file analyses syn / first / cross; "
-    "the correspondence instantiates them with the toy analysis of Proofs/EventsToy.v over six statement forms and checks 1,2,4,6",
+    "the correspondence instantiates them with the toy analysis of Proofs/EventsToy.v over eight statement forms and checks 1,2,3,4,6,10; "
+    "a diagnostic is compared as type, start line and a hash of (start column, end line, end column, message text): the model's tag "
+    "rendered by ocaml/c08_run.ml against what the real server published",
     "modelled, tied by correspondence: diagnostics_manager.go, the five handlers of textdocument_file_request.go, "
     "HandleFileEventChanges, the unchanged-content shortcut, RemoveFile / FileIndexInfo.RemoveOneFile, ReanalyseReferInfo trigger, "
     "GetAllFileErrorInfo; flat module names only (sub-directory matching is C18's subject); LRU capacity not modelled",
